@@ -285,7 +285,7 @@ def tlc(module, cfg, workers=None, timeout=1800, heap="4g", extra=None, files=No
             m = re.match(r"(\d+) states generated, (\d+) distinct states found", line)
             if m:
                 res.generated, res.distinct = int(m.group(1)), int(m.group(2))
-            if "Invariant" in line and "is violated" in line or "Temporal properties were violated" in line \
+            if "Invariant" in line and "is violated" in line or "Temporal properties were violated" in line or re.search(r"Temporal propert(y|ies) .* (was|were) violated", line) \
                     or "is violated by the initial state" in line or "Action property" in line and "violated" in line:
                 res.violation = line.strip()
             m = re.match(r"The depth of the complete state graph search is (\d+)", line)
